@@ -142,6 +142,9 @@ class DtdGen:
                     # a sequence as one alternative of a choice: with compound fields all its members land in one
                     # single-valued field (open known finding C16/sequence-inside-choice-collapses, probe in vf/props/c16.py)
                     sub.kind = "choice"
+                    for x in sub.items:  # (its own sequence members are alternatives of a choice now: same rule one level down)
+                        if x.kind == "seq" and len(x.items) > 1:
+                            x.kind = "choice"
                 sub.occur = rng.choice(["", "?", "?", "*", "+"])
                 if sub.occur == "?" and sub.kind == "seq" and rng.random() < 0.6:
                     for x in sub.items:  # an optional group of required members: all of them or none
